@@ -30,6 +30,7 @@ from .zeval import Arr, Evaluator, Unknown, keccak  # noqa: E402
 MAIN = 0x1000
 W = 1 << 256
 A160 = 1 << 160
+WATCHDOG_S = 15.0
 ALLOC_BASE = 0xAAAA0001   # halmos: magic_address + new_address_offset; the n-th created address is base + n
 
 # how halmos' exception classes map onto the reference EVM's halt kinds
@@ -100,6 +101,13 @@ def symbolic_run(scn: Scenario, **cfg) -> SymRun:
     for lg in loggers:
         lg.addHandler(cap)
     paths, escaped = [], None
+    import signal
+
+    def _alarm(signum, frame):
+        raise TimeoutError("symbolic run exceeded the harness watchdog")
+
+    old_handler = signal.signal(signal.SIGALRM, _alarm)
+    signal.setitimer(signal.ITIMER_REAL, WATCHDOG_S, 0.5)   # repeating: halmos may swallow the first exception
     try:
         for e in sevm.run(ex):
             out = e.context.output
@@ -120,6 +128,8 @@ def symbolic_run(scn: Scenario, **cfg) -> SymRun:
     except BaseException as exc:  # noqa: BLE001
         escaped = f"{type(exc).__name__}: {exc}"
     finally:
+        signal.setitimer(signal.ITIMER_REAL, 0)
+        signal.signal(signal.SIGALRM, old_handler)
         for lg in loggers:
             lg.removeHandler(cap)
     return SymRun(paths, list(sevm.logs.bounded_loops), cap.records, escaped, sevm)
@@ -338,7 +348,7 @@ def random_inputs(rng, scn: Scenario, pool=None) -> Inputs:
     bal = {}
     for a in set(addrs + [caller]):
         if rng.random() < 0.7:
-            bal[a] = rng.choice([0, 1, 5, 100, 10**18, (1 << 128) - 1, rng.randrange(1 << 64)])
+            bal[a] = rng.choice([0, 1, 5, 100, 10**18, (1 << 120) - 1, rng.randrange(1 << 64)])
     value = rng.choice([0, 0, 0, 1, 5, rng.randrange(1 << 64)])
     return Inputs([word() for _ in range(scn.nargs)], caller, origin, value, bal, rng.choice([0, 0, 7]))
 
